@@ -87,13 +87,14 @@ func NewPebbleScanner(dbPath string, opts PebbleScannerOptions) (*PebbleScanner,
 		}
 		absPath, _ = filepath.Abs(dbPath)
 	}
+	absPath = resolveRealLocation(dbPath, absPath)
 	// Restricts database operations to non critical directories.
 	// Initializing a database in system roots could allow an attacker
 	// to overwrite binaries or configurations if the process has elevated privileges.
 	if runtime.GOOS == "linux" {
 		sensitivePrefixes := []string{"/etc", "/root", "/usr", "/bin", "/sbin", "/boot"}
 		for _, sp := range sensitivePrefixes {
-			if strings.HasPrefix(absPath, sp) {
+			if absPath == sp || strings.HasPrefix(absPath, sp+string(filepath.Separator)) {
 				return nil, fmt.Errorf("security violation: refusing to initialize database in system directory %q", absPath)
 			}
 		}
@@ -176,6 +177,34 @@ func NewPebbleScanner(dbPath string, opts PebbleScannerOptions) (*PebbleScanner,
 	}
 
 	return scanner, nil
+}
+
+// resolveRealLocation returns the absolute, symlink free location that dbPath denotes.
+// Relative spellings are anchored at the working directory first. When the tail of the path
+// does not exist yet, the deepest existing ancestor is resolved (so a symlinked parent is
+// followed) and the missing components are appended to it.
+func resolveRealLocation(dbPath, fallback string) string {
+	sep := string(filepath.Separator)
+	p := dbPath
+	if !filepath.IsAbs(p) {
+		wd, err := os.Getwd()
+		if err != nil {
+			return fallback
+		}
+		// Plain concatenation: ".." must only be applied after symlinks are resolved.
+		p = wd + sep + p
+	}
+	parts := strings.Split(p, sep)
+	for i := len(parts); i > 0; i-- {
+		prefix := strings.Join(parts[:i], sep)
+		if prefix == "" {
+			prefix = sep
+		}
+		if realPrefix, err := filepath.EvalSymlinks(prefix); err == nil {
+			return filepath.Join(append([]string{realPrefix}, parts[i:]...)...)
+		}
+	}
+	return fallback
 }
 
 func (s *PebbleScanner) Close() error {
